@@ -344,3 +344,14 @@ if __name__ == "__main__" and len(sys.argv) >= 4 and sys.argv[1] == "ref":
     out = [parse_one(src, mode, version) for src, mode, version in todo]
     with open(sys.argv[3], "w") as f:
         json.dump(out, f)
+
+
+def candidates(case):
+    """shorter histories (drop one step; halve first)"""
+    steps = case.get("steps", [])
+    n = len(steps)
+    if n > 4:
+        yield dict(case, steps=steps[n // 2 :])
+        yield dict(case, steps=steps[: n // 2])
+    for i in range(n):
+        yield dict(case, steps=steps[:i] + steps[i + 1 :])
